@@ -23,6 +23,12 @@ func init() {
 	})
 }
 
+// resetCoverExempt: derived fields that cannot go stale.
+var resetCoverExempt = map[string]string{
+	"NativeHashRecordIterator.snapshot":    "a HashRecord is immutable (the class has no mutating method), the snapshot taken at creation stays its content",
+	"NativeKeyHashRecordIterator.snapshot": "a HashRecord is immutable (the class has no mutating method), the snapshot taken at creation stays its content",
+}
+
 func runResetCover(c *Ctx) {
 	for _, rel := range []string{"vm", "value"} {
 		p := c.Pkg(rel)
@@ -133,9 +139,56 @@ func runResetCover(c *Ctx) {
 				}
 				return true
 			})
+			// fields a helper method of the same type assigns (captureSnapshot):
+			// derived when the constructor calls the helper, written when Reset does
+			helperWrites := func(body *ast.BlockStmt) map[string]bool {
+				out := map[string]bool{}
+				ast.Inspect(body, func(n ast.Node) bool {
+					call, ok := n.(*ast.CallExpr)
+					if !ok {
+						return true
+					}
+					fn := Callee(info, call)
+					if fn == nil || recvNameOf(fn) != tn {
+						return true
+					}
+					var hd *ast.FuncDecl
+					c.Funcs(rel, func(fr *FuncRef) {
+						if fr.Obj == fn.Origin() {
+							hd = fr.Decl
+						}
+					})
+					if hd == nil || hd.Recv == nil || len(hd.Recv.List[0].Names) == 0 || hd.Name.Name == "Reset" {
+						return true
+					}
+					hrecv := info.Defs[hd.Recv.List[0].Names[0]]
+					ast.Inspect(hd.Body, func(m ast.Node) bool {
+						if as, ok := m.(*ast.AssignStmt); ok {
+							for _, l := range as.Lhs {
+								if sel, ok := ast.Unparen(l).(*ast.SelectorExpr); ok {
+									if id, ok := ast.Unparen(sel.X).(*ast.Ident); ok && info.Uses[id] == hrecv {
+										out[sel.Sel.Name] = true
+									}
+								}
+							}
+						}
+						return true
+					})
+					return true
+				})
+				return out
+			}
+			for f := range helperWrites(ctor.Decl.Body) {
+				if _, ok := derived[f]; !ok {
+					derived[f] = "computed by a helper the constructor calls"
+				}
+			}
 			// fields Reset assigns
 			recv := info.Defs[rfr.Decl.Recv.List[0].Names[0]]
 			written := map[string]bool{}
+			for f := range helperWrites(rfr.Decl.Body) {
+				written[f] = true
+			}
 			ast.Inspect(rfr.Decl.Body, func(n ast.Node) bool {
 				switch x := n.(type) {
 				case *ast.AssignStmt:
@@ -167,6 +220,10 @@ func runResetCover(c *Ctx) {
 			}
 			sort.Strings(fs)
 			for _, f := range fs {
+				if reason, ok := resetCoverExempt[tn+"."+f]; ok && !written[f] {
+					c.OK(rel+"."+tn+"/"+f, rfr.Decl.Pos(), "reasoned exception: %s", reason)
+					continue
+				}
 				c.Check(written[f], rel+"."+tn+"/"+f, rfr.Decl.Pos(), "New%s initialises %s from the collection (%s) but %s.Reset does not assign it: after the collection changed, a reset iterator keeps the value computed for the old contents", tn, f, derived[f], tn)
 			}
 		}
